@@ -50,7 +50,7 @@ def worker_init():
 def _specs(tier):
   fb = 8 if tier == "quick" else 12
   pb = 5 if tier == "quick" else 8
-  return [s for s in qtypes.operand_specs(fb, (2, pb)) if s[0] not in ("float", "sternary", "sbinary", "bernoulli")]
+  return [s for s in qtypes.operand_specs(fb, (2, pb)) if s[0] not in ("float", "float16", "sternary", "sbinary", "bernoulli")]
 
 
 def _ns(tier):
